@@ -9,6 +9,43 @@ fn norm(s: String) -> String {
     s.replace(" . ", ".").replace(" (", "(").replace("( ", "(").replace(" )", ")").replace(" ,", ",").replace("& ", "&").replace(" :: ", "::").replace(" !", "!")
 }
 
+/// `Client { .. }` literals and `let x = <..>.framed(..)` bindings inside one function
+struct Ctor {
+    fields: Vec<(String, String)>,
+    framed_lets: Vec<(String, String)>,
+}
+fn framed_shape(e: &Expr) -> Option<String> {
+    if let Expr::MethodCall(m) = e {
+        if m.method == "framed" {
+            return Some(format!("{}.framed(_)", norm(tokens_of(&*m.receiver))));
+        }
+    }
+    None
+}
+impl<'ast> syn::visit::Visit<'ast> for Ctor {
+    fn visit_local(&mut self, l: &'ast Local) {
+        if let (Pat::Ident(i), Some(init)) = (&l.pat, &l.init) {
+            if let Some(sh) = framed_shape(&init.expr) {
+                self.framed_lets.push((i.ident.to_string(), sh));
+            }
+        }
+        syn::visit::visit_local(self, l);
+    }
+    fn visit_expr_struct(&mut self, s: &'ast ExprStruct) {
+        if s.path.segments.last().map(|x| x.ident == "Client").unwrap_or(false) {
+            for f in &s.fields {
+                let name = norm(tokens_of(&f.member));
+                let val = framed_shape(&f.expr).unwrap_or_else(|| norm(tokens_of(&f.expr)));
+                self.fields.push((name, val));
+            }
+        }
+        syn::visit::visit_expr_struct(self, s);
+    }
+}
+fn body_of(f: &ImplItemFn) -> String {
+    f.block.stmts.iter().map(|s| norm(tokens_of(s))).collect::<Vec<_>>().join(" ")
+}
+
 pub fn translate(repo: &Path) -> String {
     let src = std::fs::read_to_string(repo.join("tokio-imap/src/client.rs")).unwrap();
     let file = syn::parse_file(&src).unwrap();
@@ -16,6 +53,33 @@ pub fn translate(repo: &Path) -> String {
     let mut new_body = String::from("<missing>");
     let mut next_body = String::from("<missing>");
     let mut other_methods: Vec<String> = vec![];
+    let mut call_body = String::from("<missing>");
+    let mut call_generic_body = String::from("<missing>");
+    let mut connect_fields: Vec<(String, String)> = vec![];
+    let mut hook_fields: Vec<(String, String)> = vec![];
+    for item in &file.items {
+        if let Item::Impl(im) = item {
+            let ty = norm(tokens_of(&im.self_ty));
+            for it in &im.items {
+                if let ImplItem::Fn(f) = it {
+                    let name = f.sig.ident.to_string();
+                    if ty == "TlsClient" && name == "call" {
+                        call_body = body_of(f);
+                    } else if ty.starts_with("Client") && name == "call_generic" {
+                        call_generic_body = body_of(f);
+                    } else if (ty == "TlsClient" && name == "connect") || (ty.starts_with("Client") && name == "from_transport") {
+                        let mut c = Ctor { fields: vec![], framed_lets: vec![] };
+                        syn::visit::Visit::visit_block(&mut c, &f.block);
+                        // a field initialised from a local that was bound to `<codec>.framed(..)` is that expression
+                        let fields: Vec<(String, String)> = c.fields.iter().map(|(n, v)| {
+                            match c.framed_lets.iter().find(|(x, _)| x == v) { Some((_, sh)) => (n.clone(), sh.clone()), None => (n.clone(), v.clone()) }
+                        }).collect();
+                        if name == "connect" { connect_fields = fields; } else { hook_fields = fields; }
+                    }
+                }
+            }
+        }
+    }
     for item in &file.items {
         match item {
             Item::Struct(s) if s.ident == "IdGenerator" => {
@@ -49,6 +113,11 @@ pub fn translate(repo: &Path) -> String {
     o.push_str("].\n");
     o.push_str(&format!("Definition gen_idgen_new : string := {}.\n", coq_str(&new_body)));
     o.push_str(&format!("Definition gen_idgen_next : string := {}.\n", coq_str(&next_body)));
+    o.push_str(&format!("(* TlsClient::call and the verification hook Client::call_generic *)\nDefinition gen_call_body : string := {}.\n", coq_str(&call_body)));
+    o.push_str(&format!("Definition gen_call_generic_body : string := {}.\n", coq_str(&call_generic_body)));
+    o.push_str("(* the Client { .. } built by TlsClient::connect and by the hook Client::from_transport (the framed transport's argument elided) *)\n");
+    o.push_str(&format!("Definition gen_connect_client : list (string * string) :=\n  [{}].\n", connect_fields.iter().map(|(n, t)| format!("({}, {})", coq_str(n), coq_str(t))).collect::<Vec<_>>().join("; ")));
+    o.push_str(&format!("Definition gen_hook_client : list (string * string) :=\n  [{}].\n", hook_fields.iter().map(|(n, t)| format!("({}, {})", coq_str(n), coq_str(t))).collect::<Vec<_>>().join("; ")));
     o.push_str("Definition gen_idgen_other_methods : list string :=\n  [");
     o.push_str(&other_methods.iter().map(|m| coq_str(m)).collect::<Vec<_>>().join("; "));
     o.push_str("].\n");
